@@ -377,6 +377,32 @@ def correspondence(ctx):
             if e != g:
                 ctx.mismatch("tzgen.ical.compinit", q, e, g)
         ctx.traces += len(cq)
+    # tzical.__init__ (translated: Gen.tzical_init): a path and a stream with the same text build the same zones / raise alike; what
+    # open() raises is raised unchanged
+    import tempfile, os as _os
+    for t in [x for x in dict.fromkeys(texts) if all(ord(c) < 128 for c in x)][:ctx.budget(12, 120)]:
+        with tempfile.NamedTemporaryFile("w", suffix=".ics", delete=False, newline="") as fh:
+            fh.write(t)
+        try:
+            a, _ = impl_parse(t)
+            try:
+                with warnings.catch_warnings():
+                    warnings.simplefilter("ignore")
+                    zs = tz.tzical(fh.name)
+                b = "ok %d %s" % (len(zs._vtz), ";".join(hexs(k) for k in zs._vtz))
+            except Exception as ex:
+                b = "err %s" % exc_kind(ex)
+            a2 = a if a.startswith("err") else "ok %s %s" % (a.split()[1], ";".join(z.split("=")[0] for z in a.split(" ", 2)[2].split(";")) if len(a.split(" ", 2)) > 2 and a.split(" ", 2)[2] else "")
+            if a2.strip() != b.strip():
+                ctx.mismatch("tzical.__init__ path vs stream", hexs(t)[:200], a2[:200], b[:200])
+            ctx.traces += 1
+        finally:
+            _os.unlink(fh.name)
+    try:
+        tz.tzical("/nonexistent/definitely/not/here.ics")
+        ctx.mismatch("tzical.__init__ missing path", "-", "raises", "accepted")
+    except (IOError, OSError):
+        ctx.count("init_missing_path_raises_oserror")
     pending = []
     accepted = []
     for q, (kind, e), g in zip(reqs, exp, got):
